@@ -7,7 +7,7 @@ Everything here is about the *frozen* definitions of `Model/Ops.lean`:
 `allocBlock`, `Mem.upd`, `decr`, `payloadDrops`, `Arc.drop`, `Arc.into_thin` they use.
 
 The central result is `runIterCtor_spec`: for EVERY memory, header, script (any `lens`, any `hints`,
-any `panicAt`), profile flag and constructor, the result of `runIterCtor` has one of four explicit
+any `panicAt`), profile flag and constructor, the result of `runIterCtor` has one of five explicit
 shapes (`IterOut`).  The property theorems of `Props/C06.lean` and `Props/C07Iter.lean` are read off
 that characterisation.
 -/
@@ -526,11 +526,12 @@ inductive CoreOut (m : Mem) (hdrLay : Layout) (hdr : Option Item) (recLen : Opti
         (.built ⟨m.blocks ++ [⟨1, true, lay, hdr, recLen, (it.sc.items.drop it.nextCalls).map some, false⟩],
                  m.log ++ [.alloc m.blocks.length lay.size lay.align], m.nextClone⟩
                 ⟨.arc, ty, m.blocks.length, 0, n⟩)
-  /-- the layout computation panics before anything is allocated; the iterator is dropped -/
+  /-- the layout computation panics before anything is allocated; unwinding drops the iterator (its
+  unyielded items) and then the header, both still owned by the constructor's frame -/
   | noAlloc :
       allocLayoutHeaderSlice bits hdrLay trackedLay n = none →
       CoreOut m hdrLay hdr recLen ty n it
-        (.panicked ⟨m.blocks, m.log ++ dropsOf (it.sc.items.drop it.nextCalls), m.nextClone⟩
+        (.panicked ⟨m.blocks, m.log ++ (dropsOf (it.sc.items.drop it.nextCalls) ++ hdrDrops hdr), m.nextClone⟩
           "layout-overflow")
   /-- a panic after the allocation: the block is leaked; the items not yet moved into it (those
   from index `k` on) are dropped with the iterator; what was written into the block comes from
@@ -549,7 +550,10 @@ theorem core_spec (m : Mem) (hdrLay : Layout) (hdr : Option Item) (recLen : Opti
     CoreOut m hdrLay hdr recLen ty n it (fromHeaderAndIterCore m hdrLay hdr recLen ty n it) := by
   unfold fromHeaderAndIterCore
   split
-  · next hal => exact .noAlloc hal
+  · next hal =>
+    have : (hdr.toList.map fun h => Event.drop h.id) = hdrDrops hdr := by cases hdr <;> rfl
+    rw [this]
+    exact .noAlloc hal
   · next lay hal =>
     simp only [allocBlock_eq]
     split
@@ -617,11 +621,21 @@ inductive IterOut (m : Mem) (which : IterCtor) (h : Option Item) (sc : IterScrip
                                sc.items.map some, false⟩],
                  m.log ++ [.alloc m.blocks.length lay.size lay.align], m.nextClone⟩
                 ⟨which.kind, which.ty, m.blocks.length, 0, which.lenOf sc.items.length⟩)
-  /-- a panic without any allocation; the items from some index `k` on are dropped (by dropping
-  the iterator / the partially collected `Vec`) -/
+  /-- a panic without any allocation outside `from_header_and_iter` (a `debug_assert` of
+  `FromIterator`, a panic while collecting into the `Vec`, the `Vec` path's layout): the items from
+  some index `k` on are dropped (by dropping the iterator / the partially collected `Vec`); these
+  paths own no header -/
   | noBlock (k : Nat) (cls : String) :
       IterOut m which h sc
         (.panicked ⟨m.blocks, m.log ++ dropsOf (sc.items.drop k), m.nextClone⟩ cls)
+  /-- the layout computation of `from_header_and_iter` for the reported length `n` overflows: the
+  `unwrap()` panics before anything is allocated and before any `next()` call; unwinding drops the
+  iterator — ALL its items — and then the header the constructor owns -/
+  | noAlloc (n : Nat) :
+      allocLayoutHeaderSlice bits which.hdrLay trackedLay n = none →
+      IterOut m which h sc
+        (.panicked ⟨m.blocks, m.log ++ (dropsOf sc.items ++ hdrDrops (which.hdrOf h)), m.nextClone⟩
+          "layout-overflow")
   /-- a panic after the allocation: the half-built block is leaked (never destroyed); the items
   from some index `k` on are dropped with the iterator; whatever was written into the block
   comes from the items before index `k` -/
@@ -672,7 +686,7 @@ theorem fromIter_spec (m : Mem) (dbg : Bool) (which : IterCtor)
             have hn' : N = sc.items.length := hn
             subst hn'
             exact .built lay hal
-          | noAlloc hal => exact .noBlock 0 _
+          | noAlloc hal => exact .noAlloc _ hal
           | leaked lay es k cls hal hk hes => exact .leaked lay _ es k cls hes
     · split
       · next it' hc =>
@@ -708,7 +722,7 @@ theorem runIterCtor_spec (m : Mem) (dbg : Bool) (which : IterCtor) (h : Option I
       have hn' : N = sc.items.length := hn
       subst hn'
       exact .built lay hal
-    | noAlloc hal => exact .noBlock 0 _
+    | noAlloc hal => exact .noAlloc _ hal
     | leaked lay es k cls hal hk hes => exact .leaked lay _ es k cls hes
   | thinFromIter =>
     simp only [runIterCtor, IterSt.len]
@@ -718,7 +732,7 @@ theorem runIterCtor_spec (m : Mem) (dbg : Bool) (which : IterCtor) (h : Option I
     generalize fromHeaderAndIterCore m Ty.hwl.hdrLay h (some N1) .hwl N2
       { sc := sc, lenCalls := 0 + 1 + 1 } = r at hs
     cases hs with
-    | noAlloc hal => exact .noBlock 0 _
+    | noAlloc hal => exact .noAlloc _ hal
     | leaked lay es k cls hal hk hes => exact .leaked lay _ es k cls hes
     | built lay hal hn =>
       have hn' : N2 = sc.items.length := hn
